@@ -181,7 +181,13 @@ func (a sortableNodeArray) compare(lhs *CandidateNode, rhs *CandidateNode, dateT
 		_, lhsNum, lhsErr := parseInt64(lhs.Value)
 		_, rhsNum, rhsErr := parseInt64(rhs.Value)
 		if lhsErr == nil && rhsErr == nil {
-			return int(lhsNum - rhsNum)
+			// not lhsNum - rhsNum: that overflows for distant 64 bit values
+			if lhsNum < rhsNum {
+				return -1
+			} else if lhsNum > rhsNum {
+				return 1
+			}
+			return 0
 		}
 		// outside the int64 range, compare as floats below
 	}
